@@ -59,7 +59,6 @@ pub fn random_dmin(rng: &mut Rng, period: u64) -> Vec<u64> {
 #[derive(Clone, Debug)]
 pub struct ArrSwarm {
     pub weights: [u64; 9],
-    pub allow_prefix: bool,
 }
 
 impl ArrSwarm {
@@ -74,15 +73,11 @@ impl ArrSwarm {
         if w.iter().sum::<u64>() == 0 {
             w[1] = 1;
         }
-        ArrSwarm {
-            weights: w,
-            allow_prefix: true,
-        }
+        ArrSwarm { weights: w }
     }
     pub fn exact_only() -> ArrSwarm {
         ArrSwarm {
             weights: [20, 40, 0, 30, 0, 0, 0, 0, 0],
-            allow_prefix: false,
         }
     }
 }
